@@ -248,7 +248,13 @@ fn fs_notify_event(id: usize, ev: Ev) -> notify::Event {
 	for p in fs_paths(id, n) {
 		e = e.add_path(p);
 	}
-	e.set_info(&format!("{}{id}", if ev.verdict() == "rej" { "rej" } else { "ok" }))
+	let e = e.set_info(&format!("{}{id}", if ev.verdict() == "rej" { "rej" } else { "ok" }));
+	// every other event also carries the optional process-id attribute a backend may set
+	if id % 2 == 1 {
+		e.set_process_id(4000 + id as u32)
+	} else {
+		e
+	}
 }
 
 /// What `process_event` must turn that notify event into.
@@ -258,7 +264,10 @@ fn fs_expected_tags(id: usize, ev: Ev) -> String {
 	for i in 0..n {
 		tags.push(Tag::Path { path: if i == 0 { format!("/w/a/f{id}").into() } else { format!("/w/a/g{id}").into() }, file_type: None });
 	}
-	format!("{tags:?}")
+	if id % 2 == 1 {
+		tags.push(Tag::Process(4000 + id as u32));
+	}
+	format!("{tags:?} backend=None")
 }
 
 fn event_id(e: &Event) -> usize {
@@ -332,7 +341,7 @@ fn log_fs_tags(events: &[Event]) {
 		}
 		if e.tags.contains(&Tag::Source(Source::Filesystem)) {
 			let id = event_id(e);
-			w(|x| x.log.push(L::FsTags { id, tags: format!("{:?}", e.tags) }));
+			w(|x| x.log.push(L::FsTags { id, tags: format!("{:?} backend={:?}", e.tags, e.metadata.get("notify-backend")) }));
 		}
 	}
 }
